@@ -431,6 +431,66 @@ fn service_verify(a: &Row, b: &Row, sig: Vec<u8>, signer_key: &[u8]) -> Option<S
     }
 }
 
+/// `store`: row a is signed by `k1` and written through the real `write`, then row b (same key: same id / same
+/// (src, label, dest)) signed by `k2` is written over it; what is then READ BACK must be b exactly and must verify
+/// ("a stored row verifies exactly as stored").
+fn store_roundtrip(a: &Row, b: &Row, k1: &Ed25519SigningKey, k2: &Ed25519SigningKey) -> Result<String, String> {
+    use discret::verif_hooks::database::sqlite_database::prepare_connection;
+    let conn = rusqlite::Connection::open_in_memory().map_err(|e| e.to_string())?;
+    prepare_connection(&conn).map_err(|e| e.to_string())?;
+    match (real_of(a, vec![]), real_of(b, vec![])) {
+        (Some(Real::Edge(mut ea)), Some(Real::Edge(mut eb))) => {
+            if ea.src != eb.src || ea.label != eb.label || ea.dest != eb.dest {
+                return Err("keys differ".into());
+            }
+            ea.sign(k1).map_err(|e| format!("sign-a {}", e))?;
+            eb.sign(k2).map_err(|e| format!("sign-b {}", e))?;
+            ea.write(&conn).map_err(|e| e.to_string())?;
+            eb.write(&conn).map_err(|e| e.to_string())?;
+            let got = Edge::get(&eb.src, &eb.label, &eb.dest, &conn).map_err(|e| e.to_string())?;
+            let got = match got {
+                Some(g) => g,
+                None => return Ok("stored-bad:missing".into()),
+            };
+            if got.verify().is_err() {
+                return Ok("stored-bad:does-not-verify".into());
+            }
+            if got.verifying_key != eb.verifying_key || got.signature != eb.signature || got.cdate != eb.cdate
+                || got.src_entity != eb.src_entity
+            {
+                return Ok("stored-bad:not-the-row-written".into());
+            }
+            Ok("stored-ok".into())
+        }
+        (Some(Real::Node(mut na)), Some(Real::Node(mut nb))) => {
+            if na.id != nb.id || na._entity != nb._entity {
+                return Err("keys differ".into());
+            }
+            na.sign(k1).map_err(|e| format!("sign-a {}", e))?;
+            nb.sign(k2).map_err(|e| format!("sign-b {}", e))?;
+            na.write(&conn, false, &None, &None).map_err(|e| e.to_string())?;
+            let stored = Node::get_with_entity(&na.id, &na._entity, &conn).map_err(|e| e.to_string())?;
+            nb._local_id = stored.and_then(|n| n._local_id);
+            nb.write(&conn, false, &None, &None).map_err(|e| e.to_string())?;
+            let got = Node::get_with_entity(&nb.id, &nb._entity, &conn).map_err(|e| e.to_string())?;
+            let got = match got {
+                Some(g) => g,
+                None => return Ok("stored-bad:missing".into()),
+            };
+            if got.verify().is_err() {
+                return Ok("stored-bad:does-not-verify".into());
+            }
+            if got.verifying_key != nb.verifying_key || got._signature != nb._signature || got.mdate != nb.mdate
+                || got._json != nb._json || got.room_id != nb.room_id
+            {
+                return Ok("stored-bad:not-the-row-written".into());
+            }
+            Ok("stored-ok".into())
+        }
+        _ => Err("kinds".into()),
+    }
+}
+
 // ------------------------------------------------------------------------------------------ instance
 
 const APP: &str = "dv digest";
@@ -545,6 +605,32 @@ async fn run(ops: &str, out: &str, stats_path: Option<&str>) {
                             }
                         }
                         direct
+                    }
+                })
+            })()
+            .unwrap_or("bad-op".into()),
+            "store" => (|| {
+                let ka = kv.get("ka")?;
+                let kb = kv.get("kb")?;
+                let s1: usize = kv.get("signer")?.parse().ok()?;
+                let s2: usize = kv.get("signer2")?.parse().ok()?;
+                if s1 >= NKEYS || s2 >= NKEYS || ka != kb || (ka != "node" && ka != "edge") {
+                    return None;
+                }
+                let a = Row::parse(ka, "a", &kv, false)?;
+                let b = Row::parse(kb, "b", &kv, false)?;
+                stats.inc("op.store");
+                Some(match store_roundtrip(&a, &b, &keys[s1], &keys[s2]) {
+                    Err(e) => { eprintln!("store error: {}", e); "bad-op".to_string() }
+                    Ok(r) => {
+                        stats.inc(&format!("store.{}", r));
+                        if r != "stored-ok" {
+                            oracle_lines.push(format!(
+                                "{} stored-row-rejected a {} written over a {} of key {} by key {} reads back as {}: {}",
+                                case_index, kb, ka, s1, s2, r, line.chars().take(140).collect::<String>()
+                            ));
+                        }
+                        r
                     }
                 })
             })()
